@@ -79,6 +79,14 @@ Match(w) ==
   /\ UNCHANGED <<asm, cache, nidx, marker, lastRead, latestIdx, dsc>>
   /\ Log([a |-> "Match", w |-> w])
 
+\* discovery announces a writer that is already matched (a periodic or changed SEDP announcement):
+\* Reader::update_writer_proxy -> RtpsWriterProxy::update_contents keeps the whole reception state
+ReAnnounce(w) ==
+  /\ matched[w]
+  /\ AbsMatch(w)
+  /\ UNCHANGED implVars
+  /\ Log([a |-> "Match", w |-> w])
+
 Unmatch(w) ==
   /\ matched[w]
   /\ AbsUnmatch(w)
@@ -222,7 +230,7 @@ Hostile(c) ==
 
 (* ------------------------------------------------------------------ *)
 Next ==
-  \/ \E w \in Writers : Match(w) \/ Unmatch(w)
+  \/ \E w \in Writers : Match(w) \/ Unmatch(w) \/ ReAnnounce(w)
   \/ \E w \in Writers, sn \in SNs : Data(w, sn)
   \/ \E w \in Writers, sn \in FragSNs, f \in 1..NFrags, fc \in 1..NFrags : DataFrag(w, sn, f, fc)
   \/ \E w \in Writers, first \in 0..(MaxSN + 1), last \in 0..MaxSN, fresh \in BOOLEAN, final \in BOOLEAN :
